@@ -30,3 +30,26 @@ Definition history1 : list ev :=
    EvTick 1; EvClock 50; ok 1; ok 1; ok 1].
 
 Definition world1 : world := run toy_sha history1 init.
+
+(* The known finding under C06 (DESIGN.md 0.3), as an event list: instance 0 commits a
+   checkpoint of size 1 to the lock store and is overtaken, before it uploads it, by instance 1,
+   which recovers it from the staging bundle, commits and publishes size 2; the late upload of
+   instance 0 then rolls the published checkpoint back. *)
+Definition history_rollback : list ev :=
+  [EvClock 10; EvCreate 0 cfg1; ok 0; ok 0; ok 0; ok 0; ok 0;
+   EvStart 0 cfg1 None; ok 0; ok 0; ok 0;
+   EvSubmit 0 (ent x31) false 0 [];
+   EvTick 0; EvClock 20; ok 0 (* clock *); ok 0 (* staging *); ok 0 (* cas: size 1 committed *);
+   (* instance 0 is now slow; instance 1 starts *)
+   EvStart 1 cfg1 None; ok 1 (* lock *); ok 1 (* storage checkpoint: size 0 *); ok 1 (* legacy *); ok 1 (* staging *);
+   okk 1 "tile/data/000.p/1"; okk 1 "tile/names/000.p/1"; okk 1 "tile/0/000.p/1";
+   ok 1 (* edge *); ok 1 (* data *); ok 1 (* roots *);
+   EvSubmit 1 (ent x32) false 0 [];
+   EvTick 1; EvClock 30; ok 1; ok 1; ok 1 (* cas: size 2 *);
+   okk 1 "tile/data/000.p/2"; okk 1 "tile/names/000.p/2"; okk 1 "tile/0/000.p/2";
+   ok 1 (* checkpoint: size 2 published *); ok 1 (* discard *);
+   (* instance 0 wakes up *)
+   okk 0 "tile/data/000.p/1"; okk 0 "tile/names/000.p/1"; okk 0 "tile/0/000.p/1";
+   ok 0 (* checkpoint: size 1 published over size 2 *)].
+
+Definition world_rollback : world := run toy_sha history_rollback init.
